@@ -270,6 +270,14 @@ func zero(t types.Type) value {
 // slice returns x[lo:hi:max].  Any of lo, hi and max may be nil.
 func slice(x, lo, hi, max value) value {
 	var Len, Cap int
+	switch t := x.(type) {
+	case numstr:
+		x = materialise(t) // the characters are needed: the text of the integer, digit by digit
+	case fpstr:
+		panic(unsupported("a slice of the text of a formatted symbolic double"))
+	case decstr:
+		panic(unsupported("a slice of a symbolic decimal numeral"))
+	}
 	switch x := x.(type) {
 	case sstr:
 		Len = len(x)
